@@ -560,3 +560,41 @@ Proof.
   - apply N.eqb_eq in E. subst i. rewrite filter_In, negb_true_iff, key_eqb_neq. tauto.
   - apply N.eqb_neq in E. tauto.
 Qed.
+
+(* (b) monotonicity of "distance < w" in the boundary: not inside w  ==>  not inside any w' <= w *)
+Lemma sq_le_abs (x y : Q) : x <= y -> y <= 0 -> y * y <= x * x.
+Proof. intros. nra. Qed.
+
+Lemma dist_lt_mono (m : metric) (q v : vec) (w w' : Q) :
+  dist_lt m q v w = false -> w' <= w -> dist_lt m q v w' = false.
+Proof.
+  intros H Hw. destruct (dist_lt m q v w') eqn:E; [|reflexivity]. exfalso.
+  destruct m; unfold dist_lt in *.
+  - apply andb_true_iff in E. destruct E as [E1 E2]. apply Qltb_iff in E1. apply Qltb_iff in E2.
+    assert (Hsq : w' * w' <= w * w) by (apply sq_mono; lra).
+    apply andb_false_iff in H. destruct H as [H|H]; apply Qltb_false in H; lra.
+  - set (b := sumsq q * sumsq v) in *. set (d := dot q v) in *.
+    destruct (Qleb b 0) eqn:Eb.
+    + apply Qltb_iff in E. apply Qltb_false in H. lra.
+    + apply Qleb_false in Eb.
+      destruct (Qltb (1 - w') 0) eqn:ET'.
+      * (* T' < 0, hence T < 0 *)
+        apply Qltb_iff in ET'.
+        assert (ET : Qltb (1 - w) 0 = true) by (apply Qltb_iff; lra). rewrite ET in H.
+        apply orb_false_iff in H. destruct H as [H1 H2]. apply Qleb_false in H1. apply Qltb_false in H2.
+        apply orb_true_iff in E. destruct E as [E|E]; [apply Qleb_iff in E; lra|].
+        apply Qltb_iff in E.
+        assert (Hsq : (1 - w') * (1 - w') <= (1 - w) * (1 - w)) by (apply sq_le_abs; lra).
+        assert (Hb : b * ((1 - w') * (1 - w')) <= b * ((1 - w) * (1 - w))) by (apply mul_le_l; lra).
+        lra.
+      * apply Qltb_false in ET'. apply andb_true_iff in E. destruct E as [E1 E2].
+        apply Qltb_iff in E1. apply Qltb_iff in E2.
+        destruct (Qltb (1 - w) 0) eqn:ET.
+        -- apply orb_false_iff in H. destruct H as [H1 _]. apply Qleb_false in H1. lra.
+        -- apply Qltb_false in ET. apply andb_false_iff in H.
+           destruct H as [H|H]; apply Qltb_false in H; [lra|].
+           assert (Hsq : (1 - w) * (1 - w) <= (1 - w') * (1 - w')) by (apply sq_mono; lra).
+           assert (Hb : b * ((1 - w) * (1 - w)) <= b * ((1 - w') * (1 - w'))) by (apply mul_le_l; lra).
+           lra.
+  - apply Qltb_iff in E. apply Qltb_false in H. lra.
+Qed.
